@@ -435,7 +435,8 @@ def main():
     for (lname, fname, rx, desc) in CONSTS:
         try:
             src = open(os.path.join(REPO, "src", fname)).read()
-            m = re.search(rx, src)
+            # the anchors are written with single spaces; any amount of white space (a reformatted source) matches
+            m = re.search(rx.replace(" ", r"\s*"), src)
             if not m:
                 raise TranslateError("anchor for %s not found" % lname)
             v = m.group(1)
